@@ -326,6 +326,34 @@ def r12e(ctx, rep, cr):
     rep.floor('R12e', 'removals from LockManager.locks', n, 4)
 
 
+def r12f(ctx, rep, cr):
+    rep.rule('R12f', 'wait edges are recorded in the critical section that found the conflict: in every LockManager function, each '
+                     'WaitForGraph::add_wait call runs while the guard on LockManager.locks taken for the conflict check is still live on '
+                     'all paths. Released first, a holder can finish (and be removed from the graph) between the check and the add; the '
+                     'edge then points at a transaction that holds nothing and no release path removes it again')
+    import c05
+    n = 0
+    for name, f in sorted(cr.fns.items()):
+        if not name.startswith('tensor_chain::distributed_tx::LockManager::'):
+            continue
+        adds = A.calls_to(f, ('re', r'deadlock::WaitForGraph::add_wait$'))
+        if not adds:
+            continue
+        rep.analysed(f)
+        defs = A.Defs(f)
+        for k, c in enumerate(adds):
+            n += 1
+            held = c05.held_at(f, defs, (c.bb, len(f.bbs[c.bb]['s'])), must=True)
+            if any(x.endswith('LockManager.locks') for x in held):
+                rep.holds('R12f', f, 'add_wait#%d' % k, 'under LockManager.locks')
+            else:
+                rep.violation('R12f', f, 'wait-edge-outside-lock', f.loc(c.line),
+                              'add_wait runs after the lock table guard was dropped (held here: %s): the blocker can release and leave the '
+                              'wait-for graph in between, and the edge recorded afterwards is never removed — a finished transaction stays '
+                              'in the graph as a holder and can be reported in a deadlock cycle' % (sorted(held) or 'nothing'))
+    rep.floor('R12f', 'add_wait calls in LockManager', n, 1)
+
+
 def run(ctx, rep):
     cr = ctx.crate('tensor_chain')
     r12a(ctx, rep, cr)
@@ -333,5 +361,6 @@ def run(ctx, rep):
     r12c(ctx, rep, cr)
     r12d(ctx, rep, cr)
     r12e(ctx, rep, cr)
+    r12f(ctx, rep, cr)
     if ctx.tier == 'thorough':
         witness.run(rep, 'R12a', ['LockTablesArePrivate'])
